@@ -4,6 +4,7 @@
   The per-key supply  Σ_shards Σ_accounts balance + Σ_in-flight amount  is invariant under every history.
 -/
 import Proofs.WF
+import Proofs.Short
 namespace Esdt
 
 /-! ### sums over an account list -/
@@ -474,21 +475,59 @@ end Esdt
 
 namespace Esdt
 
-/-- every state along the run keeps its stored values shorter than 2^63 bytes -/
-def ShortAlongW (e : Env) : List NStep → NWorld → Prop
-  | [], _ => True
-  | s :: rest, w => ShortW (nstep e w s) ∧ ShortAlongW e rest (nstep e w s)
+theorem runOn_short {e : Env} {w : NWorld} {s : Nat} {c : Call} {A' : Accts} (hS : ShortW w)
+    (h : runOn e w s c = some A') : Short A' := by
+  obtain ⟨A, out, ctx', hA, hex, hA'⟩ := runOn_some h
+  rw [← hA']
+  exact (sp_esdtTransfer { e with self := s } c { accts := A } (hS A (List.mem_of_getElem? hA))).elim hex
+
+/-- stored values stay shorter than 2^63 bytes (every write is a marshalled token) -/
+theorem nstep_short (e : Env) (w : NWorld) (st : NStep) (hS : ShortW w) : ShortW (nstep e w st) := by
+  have hset : ∀ (s : Nat) (A' : Accts), Short A' → ∀ A ∈ w.shards.set s A', Short A :=
+    fun s A' hA' => mem_set_of _ _ _ _ hS hA'
+  cases st with
+  | user c =>
+    simp only [nstep]
+    cases hr : runOn e w (shardOf e.nshards c.caller) c with
+    | none => exact hS
+    | some A' =>
+      simp only []
+      split
+      · exact hset _ _ (runOn_short hS hr)
+      · split <;> exact hset _ _ (runOn_short hS hr)
+  | deliver i =>
+    simp only [nstep]
+    cases hm : w.inflight[i]? with
+    | none => exact hS
+    | some m =>
+      simp only []
+      split
+      · exact hS
+      · cases hr : runOn e w (shardOf e.nshards m.rcv) (deliveryCall m) with
+        | none => exact hS
+        | some A' => exact hset _ _ (runOn_short hS hr)
+  | refund i =>
+    simp only [nstep]
+    cases hm : w.inflight[i]? with
+    | none => exact hS
+    | some m =>
+      simp only []
+      split
+      · exact hS
+      · cases hr : runOn e w (shardOf e.nshards m.caller) (refundCall m) with
+        | none => exact hS
+        | some A' => exact hset _ _ (runOn_short hS hr)
 
 theorem nrun_supply (e : Env) : ∀ (steps : List NStep) (w : NWorld), WorldInv e w → (∀ s ∈ steps, NStepOK s) →
-    ShortAlongW e steps w → ∀ k, supply (nrun e steps w) k = supply w k ∧ WorldInv e (nrun e steps w) := by
+    ShortW w → ∀ k, supply (nrun e steps w) k = supply w k ∧ WorldInv e (nrun e steps w) := by
   intro steps
   induction steps with
   | nil => intro w hI _ _ k; exact ⟨rfl, hI⟩
   | cons s rest ih =>
     intro w hI hok hS k
-    obtain ⟨hS1, hS2⟩ := hS
+    have hS1 := nstep_short e w s hS
     obtain ⟨h1, hI1⟩ := nstep_supply e w s hI (hok s (by simp)) hS1 k
-    obtain ⟨h2, hI2⟩ := ih (nstep e w s) hI1 (fun s' hs' => hok s' (by simp [hs'])) hS2 k
+    obtain ⟨h2, hI2⟩ := ih (nstep e w s) hI1 (fun s' hs' => hok s' (by simp [hs'])) hS1 k
     exact ⟨by simp only [nrun]; rw [h2, h1], hI2⟩
 
 end Esdt
